@@ -413,6 +413,17 @@ fn gen_config(rng: &mut Rng, alpha: &[(char, char)]) -> Config {
             cfg.exceptions.push(s);
         }
     }
+    // digits outside the word delimiters: TeX §962 stores them like any other and §965 clears them again
+    // ("if hc[1]=0 then hyf[0]:=0; if hc[k]=0 then hyf[k]:=0"): `9.ab` is `.ab`, `b3.9` is `b3.` (found by the
+    // coverage-guided stage: the code under test looked at the first/last *character* of the text to find the anchors)
+    for p in cfg.patterns.iter_mut() {
+        if p.starts_with('.') && rng.chance(1, 10) {
+            p.insert(0, (b'1' + rng.below(9) as u8) as char);
+        }
+        if p.ends_with('.') && rng.chance(1, 10) {
+            p.push((b'1' + rng.below(9) as u8) as char);
+        }
+    }
     cfg
 }
 
@@ -797,6 +808,85 @@ impl Monitor for M {
             _ => obs.inconclusive(format!("unknown phase {phase}")),
         }
     }
+}
+
+// ------------------------------------------------------------------------------------------
+// coverage-guided stage
+// ------------------------------------------------------------------------------------------
+
+/// Entry point of the libFuzzer target `c13_patterns_words` (harness/vfuzz). The input is three lines: patterns,
+/// exceptions and words, blank separated. Patterns outside the model's domain (TeX §962: letters a-z, digits, dots at the
+/// ends only; duplicates are dropped as TeX does) and words with non-letters are left out on both sides; everything
+/// else is loaded into the real Hyphenator and into the transcription of Liang's algorithm, and every word's
+/// positions are compared (`check_word`, the oracle of all generated phases).
+pub fn fuzz_one(data: &[u8], obs: &mut Obs) {
+    let Ok(text) = std::str::from_utf8(data) else {
+        return;
+    };
+    let mut it = text.split('\n');
+    let (pats, excs, words) = (it.next().unwrap_or(""), it.next().unwrap_or(""), it.next().unwrap_or(""));
+    let mut cfg = Config::default();
+    let mut probe = Liang::new();
+    for p in pats.split(' ').filter(|p| !p.is_empty()).take(48) {
+        if !p.chars().all(|c| c.is_ascii_lowercase() || c.is_ascii_digit() || c == '.') {
+            continue;
+        }
+        let Ok(parsed) = Pattern::parse(p) else { continue };
+        if probe.add_pattern(parsed) {
+            cfg.patterns.push(p.to_string());
+        }
+    }
+    for e in excs.split(' ').filter(|e| !e.is_empty()).take(12) {
+        if e.chars().all(|c| c.is_ascii_lowercase() || c == '-') && e.chars().any(|c| c != '-') {
+            cfg.exceptions.push(e.to_string());
+        }
+    }
+    let (real, model) = match build(&cfg, LcKind::Ascii) {
+        Ok(x) => x,
+        Err(p) => {
+            obs.repo_panic(&p, json!({"config": cfg_json(&cfg)}));
+            return;
+        }
+    };
+    let dsc = || cfg_json(&cfg);
+    for w in words.split(' ').filter(|w| !w.is_empty()).take(24) {
+        if w.chars().all(|c| c.is_ascii_alphabetic()) && w.len() <= 64 {
+            check_word(obs, &real, &model, &dsc, w, false);
+        }
+    }
+}
+
+/// Seed corpus (generated configurations over the two ASCII alphabets with words built from their patterns and
+/// exceptions) and dictionary for the libFuzzer target.
+pub fn fuzz_seeds() -> vcore::fuzzglue::Seeds {
+    let mut inputs = vec![];
+    for k in 0..300u64 {
+        let mut rng = Rng::new(0xC13 + k);
+        let alpha: &'static [(char, char)] = if k % 2 == 0 { ASCII3 } else { ASCII4 };
+        let cfg = gen_config(&mut rng, alpha);
+        let mut words: Vec<String> = vec![];
+        for e in cfg.exceptions.iter().take(4) {
+            words.push(e.chars().filter(|c| *c != '-').collect());
+        }
+        for _ in 0..8 {
+            let mut w = String::new();
+            while w.len() < rng.range_usize(2, 16) {
+                if !cfg.patterns.is_empty() && rng.chance(2, 3) {
+                    w.extend(rng.pick(&cfg.patterns).chars().filter(|c| c.is_ascii_alphabetic()));
+                } else {
+                    w.push(rng.pick(alpha).0);
+                }
+            }
+            words.push(w);
+        }
+        let pats: Vec<String> = cfg.patterns.iter().take(48).cloned().collect();
+        inputs.push(format!("{}\n{}\n{}", pats.join(" "), cfg.exceptions.join(" "), words.join(" ")).into_bytes());
+    }
+    let dictionary = [".", "1", "2", "3", "4", "5", "6", "7", "8", "9", "0", "-", " ", "\n", "a1b", ".a2", "b3.", "abcdefghijklmnop1q"]
+        .iter()
+        .map(|s| s.to_string())
+        .collect();
+    vcore::fuzzglue::Seeds { inputs, dictionary }
 }
 
 fn run_known(obs: &mut Obs) {
